@@ -7,52 +7,8 @@ From Coquelicot Require Import Coquelicot.
 From P Require Import C01_gen C01_model C01_proofs_subst.
 Open Scope R_scope.
 
-Theorem subst_rules_TanhSinh : forall delta n k, 0 < delta ->
-  (is_derive (TanhSinh_points delta) (kidx n k) (wts_TanhSinh delta n k) /\
-   is_derive (fun t => TanhSinh_points delta (t / delta)) (kidx n k * delta) (wts_TanhSinh delta n k / delta) /\
-   0 < wts_TanhSinh delta n k /\
-   (forall a b, a < b -> TanhSinh_points delta a < TanhSinh_points delta b) /\
-   pts_TanhSinh delta n k < pts_TanhSinh delta n (S k)) /\
-  -1 < pts_TanhSinh delta n k < 1.
-Proof. exact subst_TanhSinh_thm. Qed.
-Print Assumptions subst_rules_TanhSinh.
-
-Theorem subst_rules_ExpSinh : forall h n k, 0 < h ->
-  (is_derive (ExpSinh_points h) (kidx n k) (wts_ExpSinh h n k) /\
-   is_derive (fun t => ExpSinh_points h (t / h)) (kidx n k * h) (wts_ExpSinh h n k / h) /\
-   0 < wts_ExpSinh h n k /\
-   (forall a b, a < b -> ExpSinh_points h a < ExpSinh_points h b) /\
-   pts_ExpSinh h n k < pts_ExpSinh h n (S k)) /\
-  0 < pts_ExpSinh h n k.
-Proof. exact subst_ExpSinh_thm. Qed.
-Print Assumptions subst_rules_ExpSinh.
-
-Theorem subst_rules_LogExpSinh : forall h n k, 0 < h ->
-  (is_derive (LogExpSinh_points h) (kidx n k) (wts_LogExpSinh h n k) /\
-   is_derive (fun t => LogExpSinh_points h (t / h)) (kidx n k * h) (wts_LogExpSinh h n k / h) /\
-   0 < wts_LogExpSinh h n k /\
-   (forall a b, a < b -> LogExpSinh_points h a < LogExpSinh_points h b) /\
-   pts_LogExpSinh h n k < pts_LogExpSinh h n (S k)) /\
-  0 < pts_LogExpSinh h n k.
-Proof. exact subst_LogExpSinh_thm. Qed.
-Print Assumptions subst_rules_LogExpSinh.
-
-Theorem subst_rules_ExpExp : forall h n k, 0 < h ->
-  (is_derive (ExpExp_points h) (kidx n k) (wts_ExpExp h n k) /\
-   is_derive (fun t => ExpExp_points h (t / h)) (kidx n k * h) (wts_ExpExp h n k / h) /\
-   0 < wts_ExpExp h n k /\
-   (forall a b, a < b -> ExpExp_points h a < ExpExp_points h b) /\
-   pts_ExpExp h n k < pts_ExpExp h n (S k)) /\
-  0 < pts_ExpExp h n k.
-Proof. exact subst_ExpExp_thm. Qed.
-Print Assumptions subst_rules_ExpExp.
-
-Theorem subst_rules_SingleTanh : forall h n k, 0 < h ->
-  (is_derive (SingleTanh_points h) (kidx n k) (wts_SingleTanh h n k) /\
-   is_derive (fun t => SingleTanh_points h (t / h)) (kidx n k * h) (wts_SingleTanh h n k / h) /\
-   0 < wts_SingleTanh h n k /\
-   (forall a b, a < b -> SingleTanh_points h a < SingleTanh_points h b) /\
-   pts_SingleTanh h n k < pts_SingleTanh h n (S k)) /\
-  -1 < pts_SingleTanh h n k < 1.
-Proof. exact subst_SingleTanh_thm. Qed.
-Print Assumptions subst_rules_SingleTanh.
+(* the index array k = -m..m: consecutive integers, symmetric about 0 for odd n *)
+Theorem subst_rules_index : forall n k,
+  kidx n (S k) = kidx n k + 1 /\ kidx n 0 = - INR ((n - 1) / 2) /\ (Nat.odd n = true -> kidx n (n - 1) = INR ((n - 1) / 2)).
+Proof. exact subst_index_thm. Qed.
+Print Assumptions subst_rules_index.
